@@ -20,16 +20,33 @@ THEOREMS = {
     'C01_faithful_plain': 'without case masks on entry types and field names the result is exactly the denotation of the document itself',
     'C01_layout_independent': 'two well-formed layouts of one document give equal databases when they spell types and field names alike, and in general databases equal up to the stored spelling of types / field names / role names; each agrees in that sense with the denotation of the document',
     'C01_junk_independent': 'documents that differ only in junk text and @comment blocks give the same database',
-    'C01_identifiers': 'keys, entry types and field / role names are stored with the spelling written (closed form of the result); macro lookup, duplicate-field and repeated-key detection are case-insensitive',
+    'C01_identifiers': 'keys, entry types and field / role names are stored with the spelling written (closed form of the result); macro lookup is case-insensitive; document level: for every document that may repeat keys / field names the reports are exactly the case-insensitive duplicates and the entries are the first entry command of every key with the first field of every name (closed form)',
+    'C01_faithful_dups': 'documents whose entries may repeat field names and whose keys may repeat (up to case), WFD = WF without the two no-repetition conditions: continue mode raises nothing, reports exactly the DuplicateField / repeated-entry reports in document order (duplicate fields of a dropped entry first) and yields the database in which the first entry of every key and the first field of every name win; strict mode: same result when there is nothing to report, otherwise the first report is raised',
+    'C01_fieldless_comma_independent': 'the comma of a field-less entry (@a{k,} vs @a{k}) and any other trailing-comma choice does not change the database',
+    'C01_split_point_independent': 'macro-plus-concatenation values: two well-formed renderings whose documents as written differ only in how the literal text of the values is cut into "#"-pieces (DocEq: same macro names in the same order, same text between them; a literal may be cut anywhere, empty literals inserted) give the same database, in either mode',
+    'C01_split_point_independent_dups': 'the same for documents that may repeat field names / keys: equal databases and equal reports',
+    'C01_split_point_independent_ci': 'when the documents themselves are DocEq (any case masks) the databases agree up to the stored spelling of types / field names / role names',
+    'C01_months_redefinable': 'month macros predefined but not fixed: @string overrides a name (a month name included) for every later use in any letter case and leaves all other names alone',
+    'C01_key_folding': 'identifiers matched case-insensitively, keys: entry keys (the only identifiers that may hold non-ASCII letters) are folded with str.lower() - the Unicode mapping, idempotent, coarser than the ASCII folding of the other identifiers and equal to it on ASCII keys',
+    'C01_normalize_spec': 'values white-space-normalised, characterised independently of the definition: normalizeWs is idempotent; the result has no leading / trailing white space, no two adjacent white-space characters, no white-space character but the blank; the non-white-space characters are kept in order; texts with these properties are fixed points; the result is the words of the text (split at the 29 code points, empty pieces dropped) joined by single blanks; equal normalisation iff equal words',
+    'C01_wordsOf_spec': 'the reference notion wordsOf is determined by three equations (empty text, a text without white space, a white-space character separates) and produces exactly the non-empty white-space-free pieces',
+    'C01_split_names_spec': 'author/editor lists split into persons, characterised: a braced group with balanced body is one name whatever it contains; a balanced text without level-0 separator match is one name; junction: such a text followed by any spelling of " and " (a/A n/N d/D) and any non-empty text b is split off in front of the names of b; hence a list a0 w1 a1 ... wn an splits into exactly the stripped ai',
     'C01_months_predefined': 'jan ... dec (any case) expand to the regenerated month table without any @string',
 }
 RULE = ('abstract documents (entries, @string, @preamble, @comment, junk; values = literal / macro pieces) rendered under layouts: '
-        'small documents x every global layout combination {2 delimiters x 3 literal spellings x 4 case masks x 8 white-space kinds '
-        'incl. CR/CRLF x trailing comma}; larger random documents with per-site random layout; non-trivial = document with an entry '
-        'that has a field; distinct by (document, layout) JSON')
-TRUSTED = ['the expected database of a generated document is computed by the harness (bibgen.denote); person splitting inside it uses '
-           'the C04-verified Person() of the implementation', 'NAME characters: the regenerated NAME_CHARS table']
-ASSUMPTIONS = ['identifiers and values contain no non-ASCII letters']
+        'every sequence of <= 2 commands of a pool and hand-written documents x every global layout combination {2 delimiters x 3 literal spellings x '
+        'case masks x white-space kinds incl. CR/CRLF x trailing comma}; clause families (29 white-space code points in values, NAME_CHARS symbols / digits '
+        'in identifiers, leading zeros, name separators in every case and built with "#", months redefined, field-less entries, Unicode key folding); '
+        'larger random documents from rich pools with per-site random layout and per-command delimiter; non-trivial = document with an entry that has a '
+        'field; distinct by (document, layout) JSON')
+TRUSTED = ['the expected database of a generated document is computed by the harness (bibgen.denote: expansion, white-space normalisation over '
+           'the explicit 29-code-point table, first-occurrence-wins); the persons of a name-list value come from the Lean specification '
+           'BibSpec.personsOf (splitNameList of C12, Person() of C04) evaluated by the driver - not from pybtex', 'NAME characters: the regenerated NAME_CHARS table',
+           'the entry-point scan of importlib.metadata behind pybtex.plugin.find_plugin is memoised per process (c01.fast_plugin_lookup)']
+ASSUMPTIONS = ['entry keys are folded with str.lower() character by character (Model/UniCase.lean, table regenerated from the interpreter): keys contain '
+               'neither U+0130 (its lower case is two characters) nor U+03A3 (final-sigma context rule); entry types, field names and macro names '
+               'are NAMEs, i.e. ASCII', 'wanted_entries = None']
+UNICODE_KEY_FOLDING = True      # the model compares keys with the Unicode normaliser (Bib.keyFold = lowerU)
 
 
 def canon_error(e):
@@ -60,9 +77,30 @@ def canon_db(db):
     return entries, list(db.preamble_list)
 
 
+def fast_plugin_lookup():
+    """pybtex.database.parse_string looks its reader class up through importlib.metadata.entry_points() on EVERY call, which scans
+    all installed distributions (7 ms; 95% of the cost of reading a short text).  The installed distributions do not change during a
+    run: the lookup results are memoised per process (the name `entry_points` inside pybtex.plugin is wrapped; nothing under /repo
+    is touched and parse_string itself is called unchanged)."""
+    import pybtex.plugin as pl
+    if getattr(pl.entry_points, '_verif_cached', False):
+        return
+    orig = pl.entry_points
+    cache = {}
+
+    def cached(**kw):
+        k = tuple(sorted(kw.items()))
+        if k not in cache:
+            cache[k] = tuple(orig(**kw))
+        return cache[k]
+    cached._verif_cached = True
+    pl.entry_points = cached
+
+
 def parse_capture(text, wanted=None):
     from pybtex import errors
     from pybtex.database import parse_string
+    fast_plugin_lookup()
     try:
         with errors.capture() as captured:
             db = parse_string(text, 'bibtex', wanted_entries=wanted)
@@ -72,16 +110,30 @@ def parse_capture(text, wanted=None):
         return {'entries': None, 'preamble': None, 'errors': None, 'raised': canon_error(e)}
 
 
-def person_split(value):
-    from pybtex import errors
-    from pybtex.bibtex.utils import split_name_list
-    from pybtex.database import Person
-    out = []
-    with errors.capture():
-        for n in split_name_list(value):
-            p = Person(n)
-            out.append([p.first_names, p.middle_names, p.prelast_names, p.last_names, p.lineage_names])
-    return out
+def person_values(case):
+    """The (expanded, white-space-normalised) values of the person fields of the document as written: the strings whose
+    split into persons the specification has to supply (sent to the driver with the case, reply key spec.persons)."""
+    if 'doc' not in case:
+        return []
+    _text, written = bibgen.render_written(case['doc'], bibgen.Layout(case.get('choices', [])), case.get('fixed'))
+    seen = []
+
+    def collect(v):
+        if v not in seen:
+            seen.append(v)
+        return []
+    bibgen.denote(written, collect)
+    return seen
+
+
+def spec_person_split(reply):
+    """person_split for bibgen.denote from the reference values of the Lean specification (BibSpec.personsOf = splitNameList of
+    C12 + Person() of C04, evaluated by the driver) -- not from pybtex's own split_name_list / Person."""
+    table = {v: ps for v, ps in (reply.get('spec') or {}).get('persons', [])}
+
+    def split(value):
+        return table[value]
+    return split
 
 
 def text_of(case):
@@ -96,7 +148,7 @@ def impl(case):
 
 
 def to_request(case):  # noqa: F811
-    return {'op': 'bibparse', 'text': text_of(case), 'strict': False, 'wanted': None}
+    return {'op': 'bibparse', 'text': text_of(case), 'strict': False, 'wanted': None, 'names': person_values(case)}
 
 
 def model_out(case, reply):
@@ -110,7 +162,7 @@ def oracle(case, io, reply):
     if 'doc' not in case:
         return fails
     _text, written = bibgen.render_written(case['doc'], bibgen.Layout(case.get('choices', [])), case.get('fixed'))
-    want = bibgen.denote(written, person_split)
+    want = bibgen.denote(written, spec_person_split(reply))
     if io['errors'] != want['errors']:
         fails.append('faithful/identifiers: reported %r, the document denotes the problems %r (repeated field names and keys are matched '
                      'case-insensitively, the first occurrence wins); text=%r' % (io['errors'][:4], want['errors'][:4], text_of(case)[:300]))
@@ -153,12 +205,10 @@ def valid_case(case):
     if 'doc' not in case:
         return True
     import re
-    name = re.compile(r'^[A-Za-z@!$&*+\-./:;<>?\[\\\]^_`|~][A-Za-z0-9@!$&*+\-./:;<>?\[\\\]^_`|~]*$')
+    name = re.compile(r'^[A-Za-z@!$&*+\-./:;<>?\[\\\]^_`|~\x7f][A-Za-z0-9@!$&*+\-./:;<>?\[\\\]^_`|~\x7f]*$')
     for c in case['doc']:
         if c['k'] == 'entry':
             if not name.match(c['type']) or not c['key'] or re.search(r'[\s,]', c['key']) or c['type'].lower() in ('string', 'preamble', 'comment'):
-                return False
-            if '}' in c['key'] and not (case.get('fixed') or {}).get('paren'):
                 return False
             for n, ps in c['fields']:
                 if not name.match(n) or not ps:
@@ -195,6 +245,80 @@ def rngkey(a):
     return {'title': 'k1', 'Title': 'K1', 'TITLE': 'k2', 'tItLe': 'K1'}[a]
 
 
+def _entry(key, fields, type_='misc'):
+    return {'k': 'entry', 'type': type_, 'key': key, 'fields': fields}
+
+
+def _lit(s):
+    return [{'lit': s}]
+
+
+# pool of commands for the enumerated small abstract documents (all sequences of length <= 2)
+SMALL_CMDS = [
+    {'k': 'string', 'name': 'mm', 'value': [{'lit': 'M '}, {'macro': 'jan'}]},
+    {'k': 'string', 'name': 'Jan', 'value': _lit('redefined')},
+    {'k': 'preamble', 'value': [{'lit': 'p  q'}]},
+    {'k': 'comment', 'text': 'c, = {'},
+    {'k': 'junk', 'text': 'junk } " #\n'},
+    _entry('K', []),
+    _entry('k2', [['t', _lit('x  y')], ['month', [{'macro': 'JAN'}]]], 'Art1'),
+    _entry('k3', [['author', [{'lit': 'A Bee'}, {'lit': ' AND '}, {'lit': 'Dee, C'}]], ['n', _lit('0012')]]),
+]
+
+
+def family_docs():
+    """Deterministic documents aimed at one clause of the statement each (rendered under several global layouts)."""
+    docs = []
+    # white space: every one of the 29 code points and CRLF at the start, in the interior (single and doubled) and at the end of a
+    # value, a preamble and a person field
+    for w in bibgen.WS29 + ['\r\n']:
+        docs.append([_entry('w', [['t', _lit(w + 'a' + w + w + 'b' + w)], ['u', _lit('x' + w + 'y')], ['v', [{'lit': 'p' + w}, {'lit': w + 'q'}]],
+                                  ['author', _lit(w + 'One,' + w + 'A' + w + 'and' + w + 'Two' + w)]]),
+                     {'k': 'preamble', 'value': _lit(w + 'pre' + w + w + 'amble' + w)}])
+    # identifiers: every NAME_CHARS symbol and every digit inside an entry type, a field name, a macro name; every symbol in front
+    for c in bibgen.NAME_SYMBOLS + '0123456789':
+        cmds = [{'k': 'string', 'name': 'm' + c + 'x', 'value': _lit('V' + c)},
+                _entry('k' + c, [['f' + c + '1', [{'macro': 'm' + c + 'x'}]], ['g' + c, _lit('1')]], 't' + c + 'y')]
+        if not c.isdigit():
+            cmds.append({'k': 'string', 'name': c + 'm', 'value': _lit('W')})
+            cmds.append(_entry('K' + c + c, [[c + 'f', [{'macro': c + 'm'}]], [c, _lit('2')]], c + 'T'))
+        docs.append(cmds)
+    docs.append([_entry('url', [['url2', _lit('u')], ['stoc89', _lit('s')], ['Url2', _lit('dup')]], 'stoc89')])
+    # bare numbers keep their digits
+    for n in ('0012', '0', '007', '000', '10', '9' * 25, '00'):
+        docs.append([_entry('n', [['year', _lit(n)], ['v', [{'lit': n}, {'lit': n}]]]), {'k': 'string', 'name': 'z', 'value': _lit(n)},
+                     _entry('n2', [['y', [{'macro': 'z'}, {'lit': n}]]])])
+    # name lists: the separator in every letter case, inside braces, built with '#' from macros
+    seps = [' and ', ' AND ', ' And ', ' aNd ', ' anD ', ' ANd ', ' AnD ', ' aND ']
+    for sp in seps:
+        docs.append([{'k': 'string', 'name': 'pa', 'value': _lit('Knuth, Donald E.')}, {'k': 'string', 'name': 'pb', 'value': _lit('Leslie Lamport')},
+                     _entry('p', [['author', _lit('A Bee' + sp + 'Dee, C' + sp + 'others')],
+                                  ['editor', [{'macro': 'pa'}, {'lit': sp}, {'macro': 'PB'}, {'lit': sp + 'X{' + sp + '}Y'}]]]),
+                     _entry('q', [['Editor', [{'macro': 'pa'}, {'lit': sp.rstrip()}, {'lit': ' '}, {'macro': 'pb'}]],
+                                  ['AUTHOR', _lit('Sand' + sp.strip() + ' Andy' + sp + 'and' + sp + 'And')]])])
+    # month macros: predefined, and redefined by @string (before and after a use, in any letter case)
+    for m in sorted(bibgen.MONTHS):
+        docs.append([_entry('m1', [['month', [{'macro': m}]], ['m2', [{'macro': m.upper()}, {'lit': '~'}, {'macro': m.capitalize()}]]]),
+                     {'k': 'string', 'name': m.capitalize(), 'value': _lit('new ' + m)},
+                     _entry('m3', [['month', [{'macro': m}]], ['m2', [{'macro': m.upper()}]]]),
+                     {'k': 'string', 'name': m.upper(), 'value': [{'macro': m}, {'lit': '!'}]},
+                     {'k': 'preamble', 'value': [{'macro': m}]}])
+    # field-less entries (written with and without the comma), keys of every kind
+    docs.append([_entry(k, []) for k in ('a', 'B', '0', 'k)', 'k(', 'x"y', 'k=v', 'k#', '\xc4rger', '\u674e')] + [_entry('last', [['t', _lit('v')]])])
+    # keys are matched up to str.lower(), also outside ASCII: the second of two such entries is reported and dropped
+    for k1, k2 in (('\xc4rger', '\xe4RGER'), ('\xe4', '\xc4'), ('\u01c5', '\u01c6'), ('\u01c4x', '\u01c5X'), ('\xdf', '\u1e9e'), ('\xdf', 'SS'), ('\xc9COLE', '\xe9cole'),
+                   ('\u041a\u043b\u044e\u0447', '\u043a\u041b\u042e\u0447'), ('\u212a', 'k'), ('\u03c3', '\u03c2'), ('\uff21', '\uff41'), ('\U00010400', '\U00010428')):
+        docs.append([_entry(k1, [['t', _lit('first')]]), _entry('mid', []), _entry(k2, [['t', _lit('second')], ['T', _lit('dup')]]),
+                     _entry(k1.swapcase() if k1.swapcase().lower() == k1.lower() else k1, [['u', _lit('third')]])])
+    return docs
+
+
+FAMILY_LAYOUTS = [
+    {'spelling': 0, 'case': 0, 'ws': 0, 'trailing': False}, {'spelling': 1, 'case': 1, 'ws': 2, 'trailing': True},
+    {'spelling': 2, 'case': 3, 'ws': 6, 'trailing': False}, {'spelling': 1, 'case': 2, 'ws': 7, 'trailing': True},
+]
+
+
 def gen_cases(tier, rng, info):
     cases = []
     combos = 0
@@ -214,34 +338,63 @@ def gen_cases(tier, rng, info):
                        {'k': 'entry', 'type': 'misc', 'key': rngkey(a), 'fields': [['note', [{'lit': 'n'}]]]}]
                 cases.append({'op': 'bibparse', 'doc': doc, 'fixed': {'paren': False, 'spelling': 0, 'case': 0, 'ws': 0, 'trailing': False, 'keepcase': True}, 'choices': [0]})
                 ndup += 1
+    # every sequence of at most two commands of SMALL_CMDS (a macro used without its @string is left out) x global layouts
+    nseq = nsmall = 0
+    lay = list(itertools.product((False, True), (0, 1, 2), (0, 3), (0, 2, 6) if tier == 'quick' else range(len(bibgen.WS_KINDS)), (False, True)))
+    for n in (1, 2):
+        for seq in itertools.product(SMALL_CMDS, repeat=n):
+            doc = [dict(c) for c in seq]
+            if n == 2 and doc[0]['k'] == 'entry' and doc[1]['k'] == 'entry' and doc[0]['key'].lower() == doc[1]['key'].lower():
+                doc[1] = dict(doc[1], key=doc[1]['key'].swapcase())     # the same entry twice: the second spelled in the other case
+            nseq += 1
+            for paren, spelling, case_, ws, trailing in lay:
+                fixed = {'paren': paren, 'spelling': spelling, 'case': case_, 'ws': ws, 'trailing': trailing, 'keepcase': False}
+                cases.append({'op': 'bibparse', 'doc': doc, 'fixed': fixed, 'choices': [case_]})
+                nsmall += 1
+    nfam = 0
+    fams = family_docs()
+    for doc in fams:
+        for i, f in enumerate(FAMILY_LAYOUTS):
+            # the delimiter pair alternates from command to command (choices drive `paren`), the rest is fixed
+            cases.append({'op': 'bibparse', 'doc': doc, 'fixed': dict(f, keepcase=False), 'choices': [i, i + 1, 0, 1, 1, 0]})
+            nfam += 1
     info['exhaustive'] = True
-    info['scope'] = '%d documents naming a field twice / a key twice in every pair of case spellings; ' % ndup + '%d hand-written small documents using every construct x every global layout combination = %d renderings' % (len(SMALL_DOCS), combos)
-    n = 2500 if tier == 'quick' else 50000
+    info['scope'] = ('every sequence of <= 2 commands out of %d (entry with / without fields, person field, @string incl. a redefined month, @preamble, '
+                     '@comment, junk) = %d abstract documents x %d global layouts = %d renderings; %d documents naming a field twice / a key twice '
+                     'in every pair of case spellings; %d hand-written documents x every global layout combination = %d renderings; %d clause '
+                     'families (each of the 29 white-space code points + CRLF at start / interior / end of values, every NAME_CHARS symbol and digit '
+                     'in identifiers, numbers with leading zeros, the name separator in all 8 letter cases and built with "#", every month predefined / '
+                     'redefined, field-less entries, keys equal up to Unicode case) x %d layouts = %d renderings'
+                     % (len(SMALL_CMDS), nseq, len(lay), nsmall, ndup, len(SMALL_DOCS), combos, len(fams), len(FAMILY_LAYOUTS), nfam))
+    n = 2500 if tier == 'quick' else 120000
     for i in range(n):
-        doc = bibgen.gen_doc(rng, dups=(i % 4 == 3))
+        doc = bibgen.gen_doc(rng, dups=(i % 4 == 3), rich=(i % 5 != 0), fold_unicode_keys=UNICODE_KEY_FOLDING)
         choices = [rng.randrange(64) for _ in range(40)]
-        paren = rng.random() < 0.3
-        if any(c['k'] == 'entry' and '}' in c['key'] for c in doc):
-            paren = True
-        if any(c['k'] == 'comment' for c in doc):
-            pass
-        cases.append({'op': 'bibparse', 'doc': doc, 'choices': choices, 'fixed': {'paren': paren}})
+        # the delimiter pair is chosen per command by the layout (one document in five keeps one pair throughout)
+        fixed = {'paren': rng.random() < 0.3} if i % 5 == 1 else {}
+        cases.append({'op': 'bibparse', 'doc': doc, 'choices': choices, 'fixed': fixed})
     return cases
 
 
 LEVEL_TEXT = ('Machine-checked printer/parser proof (Lean 4) about the executable model of pybtex/database/input/bibtex.py + scanner + '
-              'normalize_whitespace + add_entry, for ALL abstract documents and ALL layouts satisfying the explicit decidable predicate WF: '
-              'parse_string(render(d, L)) raises nothing, reports nothing and returns exactly denote(written(d, L)) (C01_faithful); hence the result '
-              'is independent of delimiter pair, literal spelling (braced / quoted / bare number), "#" split points and white space, case of '
-              'macro names and of the string/preamble/comment keywords, amount and kind of white space and line ends (any of the 29 code points, '
-              'CR / LF / CRLF), trailing commas, junk text and @comment blocks; case masks on entry types and field names change only the stored '
-              'spelling (C01_layout_independent, C01_junk_independent, C01_identifiers); month macros are predefined (C01_months_predefined). '
-              'Staged lemmas (value, field, entry, @string, @preamble, @comment) are published as theorems of their own. The same documents and '
-              'layouts are generated by the harness and the implementation is compared with the model and with the harness-side denotation.')
+              'normalize_whitespace + add_entry, for ALL abstract documents and ALL layouts satisfying the explicit decidable predicate WFD (WF = WFD + no '
+              'repeated key / field name): parse_string(render(d, L)) raises nothing, reports exactly the duplicate-field / repeated-entry problems of the '
+              'document in order and returns exactly denoteD(written(d, L)), first occurrence wins (C01_faithful_dups; C01_faithful for WF: nothing reported); '
+              'hence the result is independent of delimiter pair (per command), literal spelling (braced / quoted / bare number), "#" split points and white '
+              'space, case of macro names and of the string/preamble/comment keywords, amount and kind of white space and line ends (any of the 29 code '
+              'points, CR / LF / CRLF), trailing commas incl. the field-less forms @a{k,} / @a{k}, junk text and @comment blocks; case masks on entry types and '
+              'field names change only the stored spelling (C01_layout_independent, C01_junk_independent, C01_fieldless_comma_independent, C01_identifiers); '
+              'keys are folded with str.lower(), the Unicode mapping (C01_key_folding); month macros are predefined (C01_months_predefined). "Values '
+              'white-space-normalised" and "name lists split into persons" are characterised without reference to the definitions (C01_normalize_spec, '
+              'C01_wordsOf_spec, C01_split_names_spec). Staged lemmas (value, field, entry, @string, @preamble, @comment) are published as theorems of their '
+              'own. The same documents and layouts are generated by the harness and the implementation is compared with the model and with the harness-side '
+              'denotation (persons from the Lean specification).')
 LEVEL_NOTE = ('Trusted: Lean kernel; axioms propext/Classical.choice/Quot.sound only; the hand-written model (Model/BibParse.lean) corresponds to the '
-              'code as far as the differential check explores; Spec/Bib.lean (ADoc, Layout, render, denote, WF) is what a reader has to agree with; '
-              'person splitting inside denote uses splitNameList / mkPerson (C12 / C04 models) and normalizeWs is shared with the model; WF excludes '
-              'person names with more than two top-level commas (reported by the reader), undefined macros, empty values, duplicate field names / '
-              'keys up to case (their case-insensitive detection is part of C01_identifiers), keys that the key pattern would not scan, literals '
-              'with unbalanced braces or nesting > 100, and non-NAME identifiers (the regenerated NAME tables; ASCII case mapping). Line numbers '
-              'are not part of the statements (no error is reported on well-formed input; see C10). wanted_entries = None.')
+              'code as far as the differential check explores; Spec/Bib.lean (ADoc, Layout, render, denote / denoteD, reports, WF / WFD) is what a reader has '
+              'to agree with; person splitting inside denote uses splitNameList / mkPerson (C12 / C04 models; splitNameList characterised by '
+              'C01_split_names_spec) and normalizeWs is shared with the model (characterised by C01_normalize_spec); WFD excludes person names with more than '
+              'two top-level commas (reported by the reader), undefined macros, empty values, keys that the key pattern would not scan (a field-less entry in '
+              'parentheses without comma needs white space behind the key: @a(k) reads the key "k)"), literals with unbalanced braces or nesting > 100, and '
+              'non-NAME identifiers (the regenerated NAME tables; ASCII case mapping for NAMEs, str.lower() table for keys, without U+0130 / U+03A3). Line '
+              'numbers are not part of the statements (see C10). wanted_entries = None. In strict mode with something to report only the raised error is '
+              'characterised (the first report), not the state at that moment.')
